@@ -1,2 +1,717 @@
-// Package c19: correspondence harness for property C19 (stub — registers nothing yet).
+// Package c19: the Kafka event writer (common/event/writer.go, fifobuffer.go).
+//
+// The REAL KafkaWriter is built through event.NewWriterForVerif (hook file
+// common/event/verif_hooks.go): same struct, same two goroutines, only the broker
+// call is replaced by a function that records every batch and can park on demand.
+//
+// Input  : ((prods (kind env task)*) (park k*) (script op*))   |   (storm N)
+//
+//	prods   producer i publishes payload type `kind` (index in the type switch of
+//	        internalEventToKafkaEvent) with environment id number `env` and task id number
+//	        `task` (0 = empty string); its events are tagged (i, seq) in TimestampNano
+//	park    indices of the write calls (0-based) that block until a (release)
+//	op      (pub p n)        the controller publishes n events of producer p, one after the other
+//	        (spawn p n gap)  a goroutine does the same with `gap` spin iterations between events
+//	        (join)           wait for the spawned producers
+//	        (lat us)         every later write call takes this long
+//	        (await-parked)   wait until a write call is parked
+//	        (release)        let the parked write call return
+//	        (await-written)  wait until everything accepted so far has been handed to the write function
+//	        (close)          call Close() (in its own goroutine)
+//	        (await-done)     wait until the batching loop has posted its done token (hook snapshot) or Close returned
+//	        (sleep us)
+//	        A run always ends with: join, close (if not yet called), release everything, wait for Close.
+//	(storm N) N fresh writers, nothing published, Close at a jittered instant right after construction.
+//
+// Obs    : ((accepted a0 a1 …) (batches ((p seq key)…)…) (close returned|hung) (left chan buf) (inflight n))
+//
+//	        | (storm N ok a hung b)
+//	batches in write-call order as handed to the write function; key coded 0 = none, n = "e<n>",
+//	1000+m = "t<m>"; left = what the hook snapshot shows after Close ended; inflight = write calls
+//	still running when Close returned. `hung` is reported ONLY when the goroutine dump proves it: the
+//	writing loop of this writer sits in sync.Cond.Wait and its batching loop (the only signaller) is gone.
+//	Everything that merely takes long is an infrastructure error (inconclusive), never an observation.
+//
+// The goroutine schedule is not controllable, so the Lean side works monitor-style: it rebuilds a
+// model schedule from the SHAPE of the observation (who is in which batch, batch sizes, how Close
+// ended), runs the model on it and prints the model's own observation; agreement = equality.
 package c19
+
+import (
+	"context"
+	"fmt"
+	"runtime"
+	"strings"
+	"sync"
+	"sync/atomic"
+	"time"
+
+	"github.com/AliceO2Group/Control/common/event"
+	pb "github.com/AliceO2Group/Control/common/protos"
+	"github.com/segmentio/kafka-go"
+	"google.golang.org/protobuf/proto"
+
+	"verifharness/fw"
+	"verifharness/rng"
+	"verifharness/sx"
+)
+
+const ceiling = 30 * time.Second // generous; exceeding it is "inconclusive", never a verdict
+
+func idStr(prefix string, n int) string {
+	if n == 0 {
+		return ""
+	}
+	return fmt.Sprintf("%s%d", prefix, n)
+}
+
+// mkEvent builds the payload of the given kind (order of the type switch in internalEventToKafkaEvent).
+func mkEvent(kind, env, task int) interface{} {
+	e, t := idStr("e", env), idStr("t", task)
+	switch kind {
+	case 0:
+		return &pb.Ev_MetaEvent_CoreStart{FrameworkId: "fw"}
+	case 1:
+		return &pb.Ev_MetaEvent_MesosHeartbeat{}
+	case 2:
+		return &pb.Ev_MetaEvent_FrameworkEvent{FrameworkId: "fw", Message: "m"}
+	case 3:
+		return &pb.Ev_TaskEvent{Name: "task", Taskid: t, EnvironmentId: e, State: "RUNNING"}
+	case 4:
+		return &pb.Ev_RoleEvent{Name: "role", EnvironmentId: e, State: "RUNNING"}
+	case 5:
+		return &pb.Ev_EnvironmentEvent{EnvironmentId: e, State: "RUNNING"}
+	case 6:
+		return &pb.Ev_CallEvent{Func: "f()", EnvironmentId: e}
+	case 7:
+		return &pb.Ev_IntegratedServiceEvent{Name: "dcs", EnvironmentId: e}
+	case 8:
+		return &pb.Ev_RunEvent{EnvironmentId: e, RunNumber: 1}
+	}
+	return nil
+}
+
+func keyCode(k []byte) int {
+	if k == nil {
+		return 0
+	}
+	var n int
+	s := string(k)
+	if _, err := fmt.Sscanf(s, "e%d", &n); err == nil && s == fmt.Sprintf("e%d", n) && n > 0 {
+		return n
+	}
+	if _, err := fmt.Sscanf(s, "t%d", &n); err == nil && s == fmt.Sprintf("t%d", n) && n > 0 {
+		return 1000 + n
+	}
+	return 9999
+}
+
+type wev struct{ p, seq, key int }
+
+type runner struct {
+	w        *event.KafkaWriter
+	mu       sync.Mutex
+	batches  [][]wev
+	nWritten int
+	calls    int
+	inflight int
+	parkAt   map[int]bool
+	parkedCh chan int
+	release  chan struct{}
+	freeAll  atomic.Bool
+	latNs    atomic.Int64
+	bad      atomic.Value // string: undecodable message
+}
+
+func (r *runner) write(_ context.Context, msgs ...kafka.Message) error {
+	b := make([]wev, 0, len(msgs))
+	for _, m := range msgs {
+		var e pb.Event
+		if err := proto.Unmarshal(m.Value, &e); err != nil {
+			r.bad.Store("unmarshal: " + err.Error())
+			continue
+		}
+		n := e.GetTimestampNano()
+		b = append(b, wev{int(n >> 32), int(n & 0xffffffff), keyCode(m.Key)})
+	}
+	r.mu.Lock()
+	idx := r.calls
+	r.calls++
+	r.inflight++
+	r.batches = append(r.batches, b)
+	r.nWritten += len(b)
+	park := r.parkAt[idx]
+	r.mu.Unlock()
+	if park && !r.freeAll.Load() {
+		r.parkedCh <- idx
+		<-r.release
+	}
+	if d := r.latNs.Load(); d > 0 {
+		t0 := time.Now()
+		for time.Since(t0) < time.Duration(d) {
+			runtime.Gosched()
+		}
+	}
+	r.mu.Lock()
+	r.inflight--
+	r.mu.Unlock()
+	return nil
+}
+
+func spin(n int) {
+	x := 0
+	for i := 0; i < n; i++ {
+		x += i
+	}
+	_ = x
+}
+
+// goroutine dump: is the writing loop of writer w parked in Cond.Wait while its batching loop is gone?
+func provenHung(w *event.KafkaWriter) bool {
+	buf := make([]byte, 1<<20)
+	for {
+		n := runtime.Stack(buf, true)
+		if n < len(buf) {
+			buf = buf[:n]
+			break
+		}
+		if len(buf) >= 1<<28 {
+			return false
+		}
+		buf = make([]byte, 2*len(buf))
+	}
+	ptr := fmt.Sprintf("%p", w)
+	wl := "(*KafkaWriter).writingLoop(" + ptr
+	bl := "(*KafkaWriter).batchingLoop(" + ptr
+	writerWaiting, batcherAlive := false, false
+	for _, g := range strings.Split(string(buf), "\n\n") {
+		if strings.Contains(g, bl) {
+			batcherAlive = true
+		}
+		if strings.Contains(g, wl) {
+			head, _, _ := strings.Cut(g, "\n")
+			if strings.Contains(head, "[sync.Cond.Wait") && strings.Contains(g, "sync.(*Cond).Wait(") {
+				writerWaiting = true
+			}
+		}
+	}
+	return writerWaiting && !batcherAlive
+}
+
+// awaitClose waits for Close; "hung" only with proof, error at the ceiling.
+func awaitClose(w *event.KafkaWriter, done chan struct{}, idle func() bool) (string, error) {
+	t0 := time.Now()
+	wait := 20 * time.Millisecond
+	for {
+		select {
+		case <-done:
+			return "returned", nil
+		case <-time.After(wait):
+		}
+		if idle() && provenHung(w) {
+			// re-check once: a proof must be stable
+			select {
+			case <-done:
+				return "returned", nil
+			case <-time.After(5 * time.Millisecond):
+			}
+			if provenHung(w) {
+				return "hung", nil
+			}
+		}
+		if time.Since(t0) > ceiling {
+			return "", fmt.Errorf("Close neither returned nor provably deadlocked within %v", ceiling)
+		}
+		if wait < 500*time.Millisecond {
+			wait *= 2
+		}
+	}
+}
+
+func poll(cond func() bool, what string) error {
+	t0 := time.Now()
+	for i := 0; !cond(); i++ {
+		if time.Since(t0) > ceiling {
+			return fmt.Errorf("waited more than %v for %s", ceiling, what)
+		}
+		if i < 200 {
+			runtime.Gosched()
+		} else {
+			time.Sleep(50 * time.Microsecond)
+		}
+	}
+	return nil
+}
+
+func runStorm(n int) (string, error) {
+	ok, hung := 0, 0
+	for i := 0; i < n; i++ {
+		w := event.NewWriterForVerif("verif", func(context.Context, ...kafka.Message) error { return nil })
+		spin((i * 37) % 3000)
+		done := make(chan struct{})
+		go func() { w.Close(); close(done) }()
+		st, err := awaitClose(w, done, func() bool { return true })
+		if err != nil {
+			return "", err
+		}
+		if st == "hung" {
+			hung++
+		} else {
+			ok++
+		}
+	}
+	return sx.L(sx.A("storm"), sx.I(n), sx.A("ok"), sx.I(ok), sx.A("hung"), sx.I(hung)).String(), nil
+}
+
+func runImpl(input string) (string, error) {
+	in, err := sx.Parse(input)
+	if err != nil {
+		return "", err
+	}
+	if in.At(0).Str() == "storm" {
+		return runStorm(in.At(1).Int())
+	}
+	type prod struct{ kind, env, task int }
+	var prods []prod
+	for _, p := range in.At(0).List[1:] {
+		prods = append(prods, prod{p.At(0).Int(), p.At(1).Int(), p.At(2).Int()})
+	}
+	r := &runner{parkAt: map[int]bool{}, parkedCh: make(chan int, 64), release: make(chan struct{})}
+	for _, k := range in.At(1).List[1:] {
+		r.parkAt[k.Int()] = true
+	}
+	r.w = event.NewWriterForVerif("verif", r.write)
+	accepted := make([]atomic.Int64, len(prods))
+	busy := make([]atomic.Bool, len(prods))
+	var wg sync.WaitGroup
+	publish := func(p, n, gap int) {
+		pr := prods[p]
+		for i := 0; i < n; i++ {
+			seq := accepted[p].Load()
+			r.w.WriteEventWithTimestamp(mkEvent(pr.kind, pr.env, pr.task), time.Unix(0, int64(p)<<32|seq))
+			accepted[p].Add(1)
+			if gap > 0 {
+				spin(gap)
+			}
+		}
+	}
+	total := func() int {
+		t := 0
+		for i := range accepted {
+			t += int(accepted[i].Load())
+		}
+		return t
+	}
+	closeDone := make(chan struct{})
+	closeCalled := false
+	inflightAtReturn := -1
+	doClose := func() {
+		closeCalled = true
+		go func() {
+			r.w.Close()
+			r.mu.Lock()
+			inflightAtReturn = r.inflight
+			r.mu.Unlock()
+			close(closeDone)
+		}()
+	}
+	closed := func() bool {
+		select {
+		case <-closeDone:
+			return true
+		default:
+			return false
+		}
+	}
+	joinAll := func() error {
+		ch := make(chan struct{})
+		go func() { wg.Wait(); close(ch) }()
+		select {
+		case <-ch:
+			return nil
+		case <-time.After(ceiling):
+			return fmt.Errorf("producers did not finish within %v", ceiling)
+		}
+	}
+	// on any infrastructure error: unblock everything so that nothing of this case lingers
+	bail := func(e error) (string, error) {
+		r.freeAll.Store(true)
+		for {
+			select {
+			case r.release <- struct{}{}:
+				continue
+			case <-time.After(20 * time.Millisecond):
+			}
+			break
+		}
+		return "", e
+	}
+	for _, op := range in.At(2).List[1:] {
+		switch op.At(0).Str() {
+		case "pub", "spawn":
+			p, n := op.At(1).Int(), op.At(2).Int()
+			if p >= len(prods) || closeCalled {
+				return bail(fmt.Errorf("bad script: %s", op))
+			}
+			if busy[p].Load() {
+				return bail(fmt.Errorf("bad script: producer %d used concurrently", p))
+			}
+			if op.At(0).Str() == "pub" {
+				publish(p, n, 0)
+			} else {
+				busy[p].Store(true)
+				wg.Add(1)
+				gap := op.At(3).Int()
+				go func() { defer wg.Done(); publish(p, n, gap); busy[p].Store(false) }()
+			}
+		case "join":
+			if err := joinAll(); err != nil {
+				return bail(err)
+			}
+		case "lat":
+			r.latNs.Store(int64(op.At(1).Int()) * 1000)
+		case "sleep":
+			time.Sleep(time.Duration(op.At(1).Int()) * time.Microsecond)
+		case "await-parked":
+			select {
+			case <-r.parkedCh:
+			case <-time.After(ceiling):
+				return bail(fmt.Errorf("no write call parked within %v", ceiling))
+			}
+		case "release":
+			select {
+			case r.release <- struct{}{}:
+			case <-time.After(ceiling):
+				return bail(fmt.Errorf("nothing to release within %v", ceiling))
+			}
+		case "await-written":
+			if err := joinAll(); err != nil {
+				return bail(err)
+			}
+			want := total()
+			if err := poll(func() bool { r.mu.Lock(); defer r.mu.Unlock(); return r.nWritten >= want }, "everything accepted to be written"); err != nil {
+				return bail(err)
+			}
+		case "close":
+			if err := joinAll(); err != nil {
+				return bail(err)
+			}
+			if !closeCalled {
+				doClose()
+			}
+		case "await-done":
+			if !closeCalled {
+				return bail(fmt.Errorf("bad script: await-done before close"))
+			}
+			if err := poll(func() bool { _, _, _, d := r.w.VerifSnapshot(); return d || closed() }, "the done token"); err != nil {
+				return bail(err)
+			}
+		default:
+			return bail(fmt.Errorf("bad script op %s", op))
+		}
+	}
+	if err := joinAll(); err != nil {
+		return bail(err)
+	}
+	if !closeCalled {
+		doClose()
+	}
+	// let every parked write call go
+	r.freeAll.Store(true)
+	stopRel := make(chan struct{})
+	go func() {
+		for {
+			select {
+			case r.release <- struct{}{}:
+			case <-stopRel:
+				return
+			}
+		}
+	}()
+	status, err := awaitClose(r.w, closeDone, func() bool { r.mu.Lock(); defer r.mu.Unlock(); return r.inflight == 0 })
+	close(stopRel)
+	if err != nil {
+		return "", err
+	}
+	if s, ok := r.bad.Load().(string); ok {
+		return "", fmt.Errorf("harness could not decode a message: %s", s)
+	}
+	cl, _, bl, _ := r.w.VerifSnapshot()
+	r.mu.Lock()
+	defer r.mu.Unlock()
+	acc := sx.L(sx.A("accepted"))
+	for i := range accepted {
+		acc.Add(sx.I(int(accepted[i].Load())))
+	}
+	bs := sx.L(sx.A("batches"))
+	for _, b := range r.batches {
+		bn := sx.L()
+		for _, e := range b {
+			bn.Add(sx.L(sx.I(e.p), sx.I(e.seq), sx.I(e.key)))
+		}
+		bs.Add(bn)
+	}
+	infl := 0
+	if status == "returned" {
+		infl = inflightAtReturn
+	}
+	return sx.L(acc, bs, sx.L(sx.A("close"), sx.A(status)), sx.L(sx.A("left"), sx.I(cl), sx.I(bl)),
+		sx.L(sx.A("inflight"), sx.I(infl))).String(), nil
+}
+
+// ---- generator -------------------------------------------------------------------
+
+func prodsNode(r *rng.R, n int) *sx.Node {
+	ps := sx.L(sx.A("prods"))
+	envs := r.Range(1, 3)
+	for i := 0; i < n; i++ {
+		kind := rng.Pick(r, []int{5, 5, 5, 4, 6, 7, 8, 3, 3, 0, 1, 2})
+		env := r.Range(1, envs)
+		if r.P(1, 12) {
+			env = 0
+		}
+		task := 0
+		if kind == 3 {
+			task = r.Range(0, 3)
+		}
+		ps.Add(sx.L(sx.I(kind), sx.I(env), sx.I(task)))
+	}
+	return ps
+}
+
+func op(name string, args ...int) *sx.Node {
+	n := sx.L(sx.A(name))
+	for _, a := range args {
+		n.Add(sx.I(a))
+	}
+	return n
+}
+
+func mk(prods, park, script *sx.Node) string { return sx.L(prods, park, script).String() }
+
+// the model schedule "n published, first write parked, Close, batching loop done, release"
+func genDrop(r *rng.R, big bool) fw.Case {
+	np := r.Range(1, 3)
+	script := sx.L(sx.A("script"))
+	tot := 0
+	for p := 0; p < np; p++ {
+		n := r.Range(1, 150)
+		if big {
+			n = r.Range(100, 1500)
+		}
+		tot += n
+		script.Add(op("pub", p, n))
+	}
+	script.Add(op("await-parked"), op("close"), op("await-done"), op("release"))
+	return fw.Case{Input: mk(prodsNode(r, np), sx.L(sx.A("park"), sx.I(0)), script), Tags: []string{"replay:park-close-release", fmt.Sprintf("events~%d", bucket(tot))}}
+}
+
+// everything written before Close is called: nothing to flush
+func genQuiescent(r *rng.R) fw.Case {
+	np := r.Range(1, 4)
+	script := sx.L(sx.A("script"))
+	tot := 0
+	for p := 0; p < np; p++ {
+		n := r.Range(1, 400)
+		tot += n
+		script.Add(op("spawn", p, n, r.Range(0, 300)))
+	}
+	if r.Bool() {
+		script.Add(op("lat", r.Range(1, 200)))
+	}
+	script.Add(op("await-written"), op("close"))
+	return fw.Case{Input: mk(prodsNode(r, np), sx.L(sx.A("park")), script), Tags: []string{"quiescent-close", fmt.Sprintf("events~%d", bucket(tot))}}
+}
+
+// the broker is stuck while producers push more than the channel holds
+func genFlood(r *rng.R) fw.Case {
+	np := r.Range(1, 3)
+	script := sx.L(sx.A("script"), op("pub", 0, 1), op("await-parked"))
+	tot := 1
+	for p := 0; p < np; p++ {
+		n := r.Range(3000, 6000)
+		tot += n
+		script.Add(op("spawn", p+1, n, 0))
+	}
+	script.Add(op("join"), op("release"))
+	if r.Bool() {
+		script.Add(op("await-written"))
+	}
+	script.Add(op("close"))
+	return fw.Case{Input: mk(prodsNode(r, np+1), sx.L(sx.A("park"), sx.I(0)), script), Tags: []string{"flood-while-broker-stuck", fmt.Sprintf("events~%d", bucket(tot))}}
+}
+
+func bucket(n int) int {
+	for _, b := range []int{10, 100, 1000, 10000} {
+		if n <= b {
+			return b
+		}
+	}
+	return 100000
+}
+
+// random producers / bursts / latencies / parks / close instant
+func genRandom(r *rng.R, maxEv int) fw.Case {
+	np := r.Range(1, 6)
+	script := sx.L(sx.A("script"))
+	park := sx.L(sx.A("park"))
+	tot := 0
+	rounds := r.Range(1, 3)
+	parked := false
+	if r.P(1, 4) {
+		park.Add(sx.I(0))
+		parked = true
+	}
+	if r.P(1, 2) {
+		script.Add(op("lat", rng.Pick(r, []int{1, 10, 50, 200, 1000})))
+	}
+	for k := 0; k < rounds; k++ {
+		for p := 0; p < np; p++ {
+			if r.P(1, 4) {
+				continue
+			}
+			n := rng.Pick(r, []int{1, 2, 5, 20, 99, 100, 101, 150, 250, 600})
+			if n > maxEv {
+				n = maxEv
+			}
+			tot += n
+			script.Add(op("spawn", p, n, rng.Pick(r, []int{0, 0, 10, 100, 1000})))
+		}
+		script.Add(op("join"))
+		if parked && k == 0 && tot > 0 {
+			script.Add(op("await-parked"))
+			if r.Bool() {
+				script.Add(op("release"))
+				parked = false
+			}
+		}
+		if r.P(1, 3) {
+			script.Add(op("sleep", r.Range(1, 500)))
+		}
+		if r.P(1, 4) {
+			script.Add(op("lat", rng.Pick(r, []int{0, 5, 100})))
+		}
+	}
+	tag := "close-right-after-join"
+	switch c := r.N(4); {
+	case c == 0:
+		script.Add(op("sleep", r.Range(1, 2000)))
+		tag = "close-after-delay"
+	case c == 1 && !parked:
+		script.Add(op("await-written"))
+		tag = "close-when-written"
+	}
+	script.Add(op("close"))
+	if parked && tot > 0 {
+		if r.Bool() {
+			script.Add(op("await-done"))
+		}
+		script.Add(op("release"))
+		tag = "close-while-broker-stuck"
+	}
+	return fw.Case{Input: mk(prodsNode(r, np), park, script), Tags: []string{"random", tag, fmt.Sprintf("producers=%d", np), fmt.Sprintf("events~%d", bucket(tot))}}
+}
+
+func generate(tier string, r *rng.R) []fw.Case {
+	nRandom, nDrop, nQui, nFlood, nStorm, stormN, maxEv := 260, 30, 30, 3, 2, 1500, 600
+	if tier == "thorough" {
+		nRandom, nDrop, nQui, nFlood, nStorm, stormN = 6000, 400, 400, 30, 20, 5000
+	}
+	var cs []fw.Case
+	// the design's reproduction, verbatim
+	cs = append(cs, fw.Case{Input: "((prods (5 1 0)) (park 0) (script (pub 0 250) (await-parked) (close) (await-done) (release)))",
+		Tags: []string{"replay:park-close-release", "events~1000"}})
+	for i := 0; i < nDrop; i++ {
+		cs = append(cs, genDrop(r.Fork(), i%5 == 4))
+	}
+	for i := 0; i < nQui; i++ {
+		cs = append(cs, genQuiescent(r.Fork()))
+	}
+	for i := 0; i < nFlood; i++ {
+		cs = append(cs, genFlood(r.Fork()))
+	}
+	for i := 0; i < nRandom; i++ {
+		cs = append(cs, genRandom(r.Fork(), maxEv))
+	}
+	for i := 0; i < nStorm; i++ {
+		cs = append(cs, fw.Case{Input: sx.L(sx.A("storm"), sx.I(stormN+i)).String(), Tags: []string{"storm:close-right-after-construction"}})
+	}
+	return cs
+}
+
+func nontrivial(input, obs string) bool {
+	in, err := sx.Parse(input)
+	if err != nil {
+		return false
+	}
+	if in.At(0).Str() == "storm" {
+		return in.At(1).Int() >= 100
+	}
+	o, err := sx.Parse(obs)
+	if err != nil || o.Len() < 5 {
+		return false
+	}
+	tot := 0
+	for _, a := range o.At(0).List[1:] {
+		tot += a.Int()
+	}
+	// at least two events accepted and at least one batch reached the write function
+	return tot >= 2 && o.At(1).Len() >= 2
+}
+
+// shrink: halve a count, drop an op that is not needed for the script to stay valid
+func shrinkCands(input string) []string {
+	in, err := sx.Parse(input)
+	if err != nil || in.At(0).Str() == "storm" {
+		return nil
+	}
+	var out []string
+	script := in.At(2)
+	for i := 1; i < script.Len(); i++ {
+		o := script.At(i)
+		name := o.At(0).Str()
+		if (name == "pub" || name == "spawn") && o.At(2).Int() > 1 {
+			n2 := sx.L(o.List...)
+			n2.List = append([]*sx.Node{}, o.List...)
+			n2.List[2] = sx.I(o.At(2).Int() / 2)
+			s2 := sx.L()
+			s2.List = append([]*sx.Node{}, script.List...)
+			s2.List[i] = n2
+			out = append(out, sx.L(in.At(0), in.At(1), s2).String())
+		}
+		if name == "sleep" || name == "lat" || name == "spawn" || name == "pub" {
+			s2 := sx.L()
+			s2.List = append(append([]*sx.Node{}, script.List[:i]...), script.List[i+1:]...)
+			out = append(out, sx.L(in.At(0), in.At(1), s2).String())
+		}
+	}
+	return out
+}
+
+func init() {
+	fw.Register(&fw.Property{
+		ID:         "C19",
+		Generate:   generate,
+		RunImpl:    runImpl,
+		Nontrivial: nontrivial,
+		Rule: "the real KafkaWriter (both goroutines, real FifoBuffer, real conversion to kafka messages) behind a recording write function: " +
+			"replays of the model schedule 'n published, first write parked, Close, batching loop done, release' (1..3 producers, up to 1500 events each), " +
+			"quiescent closes, floods of 3000..18000 events while the broker call is stuck (channel capacity 10000), random scripts (1..6 producers of all nine payload " +
+			"types sharing 1..3 environments, bursts of 1..600 events with spin gaps, write latencies 0..1 ms, parked writes, Close right after the last accept / " +
+			"after a delay / when all is written / while the broker is stuck), and storms of fresh writers closed right after construction; " +
+			"non-trivial = at least two events accepted and at least one batch written (storm: >= 100 writers); distinct by input text",
+		Shrink:  shrinkCands,
+		Workers: 4,
+		TrustedBase: []string{
+			"harness/props/c19 (script executor, recording write function, decoding of TimestampNano tags, goroutine-dump deadlock proof)",
+			"hook common/event/verif_hooks.go (NewWriterForVerif builds the struct NewWriterWithTopic builds with the broker call replaced; VerifSnapshot is read-only)",
+			"Go runtime semantics of channels, sync.Cond, sync.WaitGroup as modelled (no spurious wake-ups, Signal/Broadcast not remembered)",
+		},
+		Assumptions: []string{
+			"no WriteEvent is in progress or issued once Close has been called (send on a closed channel panics; the core calls ClearEventWriters at shutdown only)",
+			"the write function returns (finite broker latency); monitoring.Send is a no-op when the metrics endpoint is not running",
+			"internal steps of the two loops are not observable: the model schedule is reconstructed from the observed batches and the way Close ended",
+		},
+	})
+	fw.RegisterGen(fw.GenFile{Name: "C19Writer.lean", Make: genFacts})
+}
